@@ -9,7 +9,8 @@ PYVC_TRUST = [
 
 PROPS = {
     'C01': {
-        'modules': ['contracts.c01_encode', 'contracts.c01_arrays', 'contracts.c01_wrappers', 'contracts.c04_runtime'],
+        'modules': ['contracts.c01_encode', 'contracts.c01_arrays', 'contracts.c01_wrappers', 'contracts.c04_runtime',
+                    'contracts.c01_pygen'],
         'standins': ['py_codec'],
         'trusted': PYVC_TRUST + ['struct.pack(e+id, x) (CPython struct module): trusted leaf'],
         'assumptions': ['prophyc text -> generated class mapping (python generator + exec): bounded stand-in only'],
@@ -134,13 +135,13 @@ PROPS['C07'] = {
     'trusted': CXX_TRUST,
     'assumptions': CXX_ENV + ['-fsanitize=enum is off in the stand-in: under C++11 (the project\'s -std) an out-of-range value '
                               'cast to an enumeration is unspecified, not undefined'],
-    'level': 'proof', 'technique': CXX_TECH,
+    'level': 'other', 'technique': CXX_TECH,
 }
 PROPS['C05'] = {
     'modules': ['contracts.c04_model'], 'static': ['vf.cxx_check:C05'], 'standins': ['cxx_codec'], 'cxx': True,
     'trusted': PYVC_TRUST + CXX_TRUST,
     'assumptions': CXX_ENV + ['arrays hold no more elements than their sizer type can count (otherwise: recorded finding)'],
-    'level': 'proof', 'technique': CXX_TECH,
+    'level': 'other', 'technique': CXX_TECH,
 }
 PROPS['C03'] = {
     'modules': ['contracts.c04_model', 'contracts.c01_encode', 'contracts.c02_decode'], 'static': ['vf.cxx_check:C03'],
@@ -187,7 +188,7 @@ LEVEL_TEXT['C19'] = {'text': 'PyVC contracts on the Python encoders with symboli
                              'proofs of encode_int / decode_int / scalar encoders for little, big and native', 'note': _CXX_NOTE}
 
 PROPS['C18'] = {
-    'modules': ['contracts.c18_text'], 'static': ['vf.cxx_check:C18'], 'standins': ['cxx_codec'], 'cxx': True,
+    'modules': ['contracts.c18_text', 'contracts.c01_pygen'], 'static': ['vf.cxx_check:C18'], 'standins': ['cxx_codec'], 'cxx': True,
     'trusted': PYVC_TRUST + CXX_TRUST + ['assumed contract of std::ostream: flags and fill sticky, width consumed by the next '
                                          'insertion; std::hex changes the number base held in the flags'],
     'assumptions': CXX_ENV + ['strings are opaque in the contracts: which pieces are produced, from which operands, in which '
@@ -201,6 +202,10 @@ PROPS['C19']['standins'] = ['py_codec', 'cxx_codec']
 PROPS['C19']['cxx'] = True
 PROPS['C19']['trusted'] = PYVC_TRUST + CXX_TRUST
 PROPS['C19']['technique'] = CXX_TECH
+PROPS['C19']['level'] = 'other'
+# C05, C07, C19: proof-level technique (every obligation generated from the source is decided by z3/cvc5), but the run is
+# recorded at level `other` because a few obligations are *refuted* on the unchanged tree -- the recorded findings of
+# known_findings.json (optional of a vector-holding struct; arrays longer than a narrow sizer) -- so discharged < obligations.
 
 PROPS['C20'] = {
     'modules': ['contracts.c16_files', 'contracts.c14_expr'],
